@@ -1,5 +1,7 @@
 import Chess.Lemmas.Reach
 import Chess.Lemmas.SpecSums
+import Chess.Lemmas.FnsEquiv.GameState
+import Chess.Lemmas.FnsEquiv.Piece
 
 /-!
 # C05 — different positions get different hashes
@@ -55,3 +57,18 @@ end Chess.Props.C05
 #print axioms Chess.Props.C05.single_feature_changes_the_sum
 #print axioms Chess.Props.C05.single_feature_changes_the_hash
 #print axioms Chess.Props.C05.every_right_and_file_is_mixed_in
+
+/-! ### Translation tie (C05.T)
+`tools/translate.py` regenerates `Chess/Gen/Fns.lean` from the Rust text of the leaf functions on every run (a
+parser, not patterns); the theorems below — proved in `Chess/Lemmas/FnsEquiv/*` and re-checked by the kernel whenever
+the generated term changes — say that the TRANSLATED code equals the hand-written model this file's theorems are
+about, for the features mixed into the hash: each right and the en-passant file have their own bits of the state byte, each piece kind and colour its own key column. A rewrite of the Rust text that keeps the meaning leaves them true; one that changes it breaks the
+theorem named after the function. -/
+#print axioms Chess.FnsEquiv.GameState_set_white_king_castling_true_eq
+#print axioms Chess.FnsEquiv.GameState_set_white_queen_castling_true_eq
+#print axioms Chess.FnsEquiv.GameState_set_black_king_castling_true_eq
+#print axioms Chess.FnsEquiv.GameState_set_black_queen_castling_true_eq
+#print axioms Chess.FnsEquiv.GameState_set_en_passant_eq
+#print axioms Chess.FnsEquiv.Piece_as_index_eq
+#print axioms Chess.FnsEquiv.PieceType_discr_eq
+#print axioms Chess.FnsEquiv.Player_discr_eq
